@@ -131,6 +131,9 @@ STAGES = {
                                           AUTHTYPES='{"NOAUTH", "PLAIN-NOENC", "LOGIN-NOENC", "CRAM-MD5", "SCRAM-SHA-256", "XOAUTH2"}',
                                           AUTHLISTS='{{"PLAIN", "LOGIN", "CRAM-MD5", "SCRAM-SHA-256", "XOAUTH2"}}')),
             ('send-stall', 'Session', cfg(BUDGET='1', CAPSETS='{{}}', CLASSES='{"stall", "cstall"}', NONOOP='BOOLEAN')),
+            # a second Dial on a Client whose first, idle connection the server no longer answers on
+            ('redial-with-silent-old-connection', 'Session', cfg(OP='"Send"', N='1', MAXR='1', BUDGET='0', CAPSETS='{{}}', REDIAL='{TRUE}', VARIANTS='{"mute"}',
+                                                                  POLICIES='{"none", "opportunistic"}', STARTTLSADV='BOOLEAN')),
             # implicit TLS over real TCP: the server accepts the connection and never answers the ClientHello, or goes silent later
             ('implicit-tls-stall', 'Session', cfg(OP='"Dial"', N='1', MAXR='1', BUDGET='1', CAPSETS='{{}}', CLASSES='{"stall"}', POLICIES='{"implicit"}',
                                                   HANDSHAKES='{"ok", "stall"}', FALLBACK='BOOLEAN', AUTHTYPES='{"NOAUTH", "PLAIN"}', AUTHLISTS='{{"PLAIN", "LOGIN"}}')),
